@@ -38,6 +38,13 @@ NONTRIV = "bounded-exhaustive strings over small alphabets by increasing length 
 
 exec(open(os.path.join(ROOT, "tools", "props_data.py")).read())
 
+# every operation-level property: the other families' copies of its operations are compared with the byte family
+FAM_NOTE = (" The UTF-8, typed and UTF-8 typed copies (borrowed and owned) of this property's operations are compared with "
+            "the byte family on a slice of its own domains after the oracle (clause families-agree): that the copies delegate "
+            "is validated by that comparison, not proved.")
+for _pid in ("C01", "C02", "C03", "C04", "C06", "C07", "C08", "C09", "C10", "C11", "C12", "C13", "C16"):
+    PROPS[_pid]["level_note"] += FAM_NOTE
+
 
 def main():
     props_out = {k: v for k, v in sorted(PROPS.items())}
